@@ -548,18 +548,25 @@ Error if `string` is not a valid string."
 pub fn load_all(mem: &mut Memory, args: &[GcRef], _env: GcRef, recursion_depth: usize) -> Result<GcRef, GcRef> {
     validate_args!(mem, LOAD_ALL.name, args, (let _input: TypeLabel::String), (let source: TypeLabel::Any));
 
+    let old_module = mem.get_current_module();
+    if let Some(s) = list_to_string(source.clone()) {
+        mem.define_module(&s);
+    }
+
+    // whatever happens while loading, the module that was current before is current again afterwards
+    let result = load_all_forms(mem, args[0].clone(), source, recursion_depth);
+    mem.set_current_module(&old_module).unwrap();
+    result
+}
+
+fn load_all_forms(mem: &mut Memory, input: GcRef, source: GcRef, recursion_depth: usize) -> Result<GcRef, GcRef> {
     let ok_symbol         = mem.symbol_for("ok");
     let incomplete_symbol = mem.symbol_for("incomplete");
     let error_symbol      = mem.symbol_for("error");
     let invalid_symbol    = mem.symbol_for("invalid");
     let mut line          = mem.allocate_number(1);
     let mut column        = mem.allocate_number(1);
-    let mut cursor        = args[0].clone();
-
-    let old_module = mem.get_current_module();
-    if let Some(s) = list_to_string(source.clone()) {
-        mem.define_module(&s);
-    }
+    let mut cursor        = input;
 
     while !cursor.is_nil() {
         let output     = read(mem, &[cursor.clone(), source.clone(), line.clone(), column.clone()], GcRef::nil(), recursion_depth + 1)?;
@@ -592,8 +599,6 @@ pub fn load_all(mem: &mut Memory, args: &[GcRef], _env: GcRef, recursion_depth: 
 
         cursor = rest;
     }
-
-    mem.set_current_module(&old_module).unwrap();
 
     Ok(ok_symbol)
 }
